@@ -277,6 +277,51 @@ fn exec_local(caps: &[usize], ops: &[Op]) -> Outcome {
             out.push(tx.receiver_count() as u128);
         }
         finish(&mut out, &mut subs);
+        // After the compared part: every sender goes away while some subscribers may be lagging (buffer full, marker not
+        // yet queued); they then drain.  A subscriber that missed the last values must still be told so (a lag marker
+        // after its last value) before it sees the end of the channel.
+        let mut oracle = oracle;
+        drop(tx);
+        for (id, s) in subs.iter_mut().enumerate() {
+            let Some(rx) = s.rx.as_mut() else { continue };
+            let mut all: Vec<Item> = s.received.iter().chain(s.queued.iter()).copied().collect();
+            let mut closed = false;
+            for _ in 0..200 {
+                barrier().await;
+                loop {
+                    match rx.try_recv() {
+                        Ok(v) => all.push(Item::Value(v)),
+                        Err(broadcast::TryRecvError::Lagged) => all.push(Item::Lagged),
+                        Err(broadcast::TryRecvError::Empty) => break,
+                        Err(_) => {
+                            closed = true;
+                            break;
+                        }
+                    }
+                }
+                if closed {
+                    break;
+                }
+            }
+            if !closed {
+                if oracle.is_ok() {
+                    oracle = Err(format!("sub {id}: the channel does not end after every sender was dropped and the subscriber drained"));
+                }
+                continue;
+            }
+            let last_value = all.iter().rev().find_map(|i| if let Item::Value(v) = i { Some(*v) } else { None });
+            let ends_with_marker = matches!(all.last(), Some(Item::Lagged));
+            let missed_tail = match last_value {
+                Some(v) => v + 1 < sent,
+                None => sent > s.start,
+            };
+            if missed_tail && !ends_with_marker && oracle.is_ok() {
+                oracle = Err(format!(
+                    "sub {id}: the last values (up to {}) were skipped for this subscriber, but after every sender was dropped it saw the end of the channel without a lag marker (last value {:?})",
+                    sent.saturating_sub(1), last_value
+                ));
+            }
+        }
         Outcome { out, subs, sent, send_closed, oracle }
     })
 }
